@@ -428,6 +428,22 @@ Theorem ILT_LT causal const s F : (forall tm, In tm F -> wf_term s tm) ->
     dLval E s (m_c m) + Lval s (m_u m) = const * image_sum s F.
 Proof. intros Hw. unfold doit_model, make_opt. destruct (doit_terms_value causal s F Hw) as [r [Hr Hv]]. rewrite Hr.
   eexists; split; [reflexivity|]. unfold make_model. cbn [m_c m_u]. rewrite dLval_dscale, Lval_sscale, <- Hv. unfold tval. ring. Qed.
+(* the expand-and-recurse fall-back of term(): a term whose delay T was stripped is split into
+   pieces, each piece is transformed with the delay factor re-attached; the sum of the results
+   transforms back to exp(-sT) times the sum of the pieces *)
+Definition set_delay (T : Qc) (tm : iterm) : iterm := ITerm (it_const tm) T (it_C tm) (it_ts tm).
+Theorem fallback_LT causal s (pieces : list iterm) (T : Qc) : qc_ltb T 0 = false ->
+  (forall tm, In tm pieces -> wf_term s tm /\ it_delay tm = 0%Qc) ->
+  exists r, sum_terms (map (fun tm => term_model causal (set_delay T tm)) pieces) = Some r /\
+            tval E s r = E T * image_sum s pieces.
+Proof. intros HT Hw.
+  destruct (doit_terms_value causal s (map (set_delay T) pieces)) as [r [Hr Hv]].
+  { intros tm Hin. apply in_map_iff in Hin. destruct Hin as [tm0 [<- Hin]]. destruct (Hw tm0 Hin) as [[A [Bq _]] _].
+    unfold wf_term, set_delay. cbn [it_ts it_delay]. repeat split; assumption. }
+  unfold doit_terms in Hr. rewrite map_map in Hr. exists r. split; [exact Hr|]. rewrite Hv.
+  clear Hr Hv r. induction pieces as [|tm F IH]; cbn [map image_sum]; [ring|].
+  rewrite IH by (intros tm' Hin; apply Hw; right; exact Hin).
+  destruct (Hw tm (or_introl eq_refl)) as [_ Hz]. unfold term_image, set_delay. cbn [it_const it_delay it_C it_ts]. rewrite Hz, E0. ring. Qed.
 End WithE.
 
 (* with the verified certificate checker: the image is the input rational function *)
@@ -633,7 +649,7 @@ End Undef.
 Arguments ITerm {K}. Arguments it_const {K}. Arguments it_delay {K}. Arguments it_C {K}. Arguments it_ts {K}.
 Arguments CTerm {K}. Arguments ct_term {K}. Arguments ct_B {K}. Arguments ct_A {K}.
 Arguments MRes {K}. Arguments m_c {K}. Arguments m_u {K}. Arguments m_cond {K}.
-Arguments TRes {K}. Arguments t_c {K}. Arguments t_u {K}. Arguments term_of_pair {K}. Arguments sum_terms {K}. Arguments make_opt {K}. Arguments make_model {K}.
+Arguments set_delay {K}. Arguments TRes {K}. Arguments t_c {K}. Arguments t_u {K}. Arguments term_of_pair {K}. Arguments sum_terms {K}. Arguments make_opt {K}. Arguments make_model {K}.
 Arguments Branches {K}. Arguments b_simple {K}. Arguments b_repeated {K}. Arguments b_conj {K}. Arguments b_poly {K}.
 Arguments wf_tsb {K}. Arguments keys_nodupb {K}. Arguments orders_posb {K}.
 Arguments pf_iv {K}. Arguments pf_fv {K}. Arguments cert_ok {K}. Arguments roundtrip_check {K}. Arguments roundtrip_list {K}.
